@@ -181,6 +181,16 @@ def clause_checks(chk, row, ref, m, order, inp, dictrows):
             exp.append("generic" if toks[1] == "X" else toks[2])
     if got != exp:
         chk.violation("AVPs are not the arguments' classes in declaration order (extras last)", inp, exp, got)
+    # every argument is carried by the AVP (Vendor-ID, code) the reviewed snapshot lists for its key
+    refmap = {k: (v or 0, c) for k, v, c in (ref or {}).get("key_avps", [])}
+    supplied = [(k, t) for k, t in order if t[0] != "N"]
+    if len(supplied) == len(m.avps):
+        for (k, _t), a in zip(supplied, m.avps):
+            if k in refmap:
+                have = (int.from_bytes(a.vendor_id, "big") if a.vendor_id else 0, int.from_bytes(a.code, "big"))
+                if have != refmap[k]:
+                    chk.violation("argument %r is not carried by the AVP published for it" % k, inp,
+                                  {"vendor": refmap[k][0], "code": refmap[k][1]}, {"vendor": have[0], "code": have[1], "class": type(a).__name__})
     mk = (ref or {"mandatory_keys": [k for k, _ in row["mandatory"]]})["mandatory_keys"]
     for k in mk:
         c = key2cls.get(k)
